@@ -137,6 +137,7 @@ void ddp_string_string_verkettet(ddpstring *ret, ddpstring *str1, ddpstring *str
 	} else if (ddp_string_empty(str1)) {
 		ddp_deep_copy_string(ret, str2);
 		ddp_free_string(str1);
+		*str1 = DDP_EMPTY_STRING; // the caller may free str1 again
 		return;
 	} else if (ddp_string_empty(str2)) {
 		*ret = *str1;
@@ -164,6 +165,7 @@ void ddp_char_string_verkettet(ddpstring *ret, ddpchar c, ddpstring *str) {
 
 	if (ddp_string_empty(str)) {
 		ddp_free_string(str);
+		*str = DDP_EMPTY_STRING; // the caller may free str again
 		ddp_string_from_constant(ret, temp);
 		return;
 	}
@@ -189,6 +191,7 @@ void ddp_string_char_verkettet(ddpstring *ret, ddpstring *str, ddpchar c) {
 
 	if (ddp_string_empty(str)) {
 		ddp_free_string(str);
+		*str = DDP_EMPTY_STRING; // the caller may free str again
 		ddp_string_from_constant(ret, temp);
 		return;
 	}
